@@ -56,6 +56,7 @@ package main
 // Charting a range: the number of reports charted is the number read; an error
 // from any day (a missing day is "not found") is returned and nothing is written.
 //@ contract handleChart$1
+//@   timeout 60
 //@   requires r != nil && r.URL != nil && s != nil && s.Chart != nil && s.Merge != nil && cfg != nil
 //@   at call parseDateRange#1: ghost $dayErr = false
 //@   at call parseDateRange#1: ghost $total = 0
@@ -97,6 +98,7 @@ package main
 //@ predicate noNilPrograms(rs): forall i int, j int :: 0 <= i && i < len(rs) && 0 <= j && j < len(rs[i].Programs) ==> rs[i].Programs[j] != nil
 
 //@ contract group
+//@   timeout 60
 //@   requires noNilPrograms(reports)
 //@   ensures dataOK(result)
 //@   loop 1: invariant dataOK(result)
